@@ -918,11 +918,13 @@ static unsigned long __plthook_entry(unsigned long *ret_addr, unsigned long chil
 			goto out;
 	}
 
-	if (unlikely(mtdp->in_exception)) {
+	if (unlikely(mtdp->in_exception) && (unsigned long)ret_addr > mtdp->exception_frame) {
 		/*
 		 * called from a landing pad (e.g. by an inlined destructor):
 		 * like __mcount_entry(), drop the frames unwound so far -
-		 * their return slots are at or below ours.
+		 * their return slots are at or below ours.  A call made below
+		 * the frame of the throw comes from the unwinder itself
+		 * (--nest-libcall), which still needs the real return addresses.
 		 */
 		mcount_rstack_rehook_exception(mtdp, (unsigned long)ret_addr);
 		mtdp->in_exception = false;
